@@ -13,6 +13,7 @@
 -/
 import NemoVerif.Lemmas.Closed
 import NemoVerif.Lemmas.V1Compile
+import NemoVerif.Lemmas.V1Load
 import NemoVerif.Lemmas.Expand
 import NemoVerif.Lemmas.ExpandPath
 import NemoVerif.Lemmas.ExpandInPlace
@@ -278,6 +279,90 @@ theorem v1_dynamic_flow_in_bounds (items : List Item) (es : List Elem) (h : dyna
     cases h
     obtain ⟨h1, h2⟩ := v1_offsets_in_bounds items es0 hc
     exact prepend_plain_ok es0 h1 h2
+
+/-! ### phase 5 — the flow the RUNTIME holds (`RuntimeV1_0._load_flow_config`) -/
+
+/-- `v1_loaded_leading_meta`: for a flow with a flow-level `meta` element (subflow / extension / priority / any `meta`
+    statement of the flow body — `_parse_meta` hoists it to position 0), the elements the runtime holds after
+    `_load_flow_config` sliced it off are EXACTLY what `parse_flow_elements` returns for the flow without it: relative
+    offsets do not depend on where the flow starts, and nothing refers to the position of the removed element. -/
+theorem v1_loaded_leading_meta (rest : List Item) : loadedFlow (.simple "meta" :: rest) = compileFull rest := by
+  unfold loadedFlow
+  rw [compileFull_meta_cons]
+  cases compileFull rest with
+  | error m => rfl
+  | ok es => simp [Except.map, loadFlow, isMeta, metaElem, metaKind]
+
+/-- `v1_loaded_other_unchanged`: a flow that does not begin with a `meta` item is held by the runtime exactly as
+    `parse_flow_elements` returned it — in particular a `meta` element at the head of an `if` / `while` / `when` block,
+    which the offsets spanning it count, is NOT removed. -/
+theorem v1_loaded_other_unchanged (items : List Item) (h : ∀ rest, items ≠ .simple "meta" :: rest) :
+    loadedFlow items = compileFull items := by
+  unfold loadedFlow
+  cases hc : compileFull items with
+  | error m => rfl
+  | ok es =>
+    cases items with
+    | nil =>
+      have : compileFull [] = .ok [] := rfl
+      rw [this] at hc
+      cases hc
+      rfl
+    | cons it rest =>
+      obtain ⟨c, cs, hcc, hmeta⟩ := compile_cons_head it rest
+      obtain ⟨e, r, he, hm⟩ := compileFull_head _ c cs es hcc hc
+      subst he
+      cases hme : isMeta e with
+      | true => exact absurd (by rw [hmeta (hm hme)]) (h rest)
+      | false => simp [loadFlow, hme]
+
+/-- `v1_loaded_in_bounds` (the C12 statement for Colang 1.0 on what the runtime EXECUTES): for every item tree the
+    loader accepts, every relative jump / else / break / continue / branch offset of the flow held in
+    `runtime.flow_configs` lands inside that flow, and no label / goto is left. -/
+theorem v1_loaded_in_bounds (items : List Item) (es : List Elem) (h : loadedFlow items = .ok es) :
+    OffsetsInBounds es ∧ Resolved es := by
+  by_cases hm : ∃ rest, items = .simple "meta" :: rest
+  · obtain ⟨rest, rfl⟩ := hm
+    rw [v1_loaded_leading_meta] at h
+    exact v1_offsets_in_bounds rest es h
+  · have h' : ∀ rest, items ≠ .simple "meta" :: rest := fun rest he => hm ⟨rest, he⟩
+    rw [v1_loaded_other_unchanged items h'] at h
+    exact v1_offsets_in_bounds items es h
+
+/-- `v1_dynamic_loaded_in_bounds`: a flow added at run time goes through the same loader (`_process_start_flow` calls
+    `_load_flow_config` on `start_flow :: parse_flow_elements body`); its first element is the `start_flow` element, so the
+    loader keeps the list as it is — also when the generated body begins with a `meta` / `priority` statement — and every
+    offset of the flow the runtime holds is in bounds. -/
+theorem v1_dynamic_loaded_in_bounds (items : List Item) (es : List Elem) (h : dynamicFlow items = .ok es) :
+    loadFlow es = es ∧ OffsetsInBounds (loadFlow es) ∧ Resolved (loadFlow es) := by
+  have hb := v1_dynamic_flow_in_bounds items es h
+  unfold dynamicFlow at h
+  cases hc : compileFull items with
+  | error m => rw [hc] at h; cases h
+  | ok es0 =>
+    rw [hc] at h
+    cases h
+    have : loadFlow (startFlowElem :: es0) = startFlowElem :: es0 := by
+      simp [loadFlow, isMeta, startFlowElem, metaKind]
+    rw [this]
+    exact ⟨rfl, hb⟩
+
+/-- non-vacuity: a subflow-like flow (leading meta) that STARTS with a loop whose body has its own meta element and an
+    `if` with a nested meta that ENDS the flow: accepted, the loader removes exactly the leading element (7 of 8 stay),
+    the nested meta elements are still there (finite fact, by evaluation) -/
+example : (match loadedFlow [.simple "meta", .whileS [.simple "meta", .simple "set"], .ifS [.simple "meta", .simple "run_action"] []] with
+    | .ok es => v1Closed es && es.length == 7 && (es.filter isMeta).length == 2
+    | .error _ => false) = true := by
+  decide
+
+/-- `filter_all_meta_counterexample` (seeded change C12-d; NOT the code as it is): a loader that filters out EVERY
+    `meta` element after the offsets were computed does not preserve the property — for `user …; if …: meta; bot …`
+    the compiled flow is in bounds, the filtered flow has an `if` whose `_next_else` lands on `len + 1`. -/
+theorem filter_all_meta_counterexample :
+    ∃ items es, compileFull items = .ok es ∧ v1Closed es = true ∧ v1Closed (loadFlowFilterAll es) = false :=
+  ⟨[.simple "UserIntent", .ifS [.simple "meta", .simple "run_action"] []],
+   [{ kind := .simple "UserIntent" }, { kind := .ifK, nextElse := some 3 }, { kind := .simple "meta" }, { kind := .simple "run_action" }],
+   rfl, by decide, by decide⟩
 
 /-- non-vacuity: a generated body with a loop and a break (finite fact, by evaluation) -/
 example : (match dynamicFlow [.simple "UserIntent", .whileS [.ifS [.simple "break"] [], .simple "run_action"]] with
